@@ -35,6 +35,23 @@ TRUSTED_BASE = [
     "the harness itself (generators, canonicalisation, comparison, search oracles): ordinary Python",
 ]
 
+# which correspondence suites (structures) use an extracted fact, by name prefix of the fact
+FACT_USERS = {
+    "fnv32": {"hashes", "qf"},
+    "fnv64": {"hashes", "bloom", "cbf", "expanding", "cms", "cuckoo", "ondisk"},
+    "bloomLn": {"sizing", "bloom", "cbf", "expanding", "ondisk"},
+    "bloom": {"bloom", "cbf", "expanding", "ondisk"},
+    "onDisk": {"ondisk"},
+    "cbf": {"cbf"},
+    "exp": {"expanding"},
+    "rot": {"expanding"},
+    "cmsLn": {"sizing", "cms"},
+    "cms": {"cms"},
+    "cuckoo": {"cuckoo"},
+    "ccf": {"cuckoo"},
+    "qf": {"qf"},
+}
+
 READ_ONLY = r"\.(chk|stats|obs|export|hashes|jacc|view)\b"
 COUNTERS = ["count", "added", "total", "unique", "subcounts", "estimate", "cfpr", "setbits", "nblooms"]
 LOADS = r"\.(load|loadraw|reopen|loadmem|export)\b"
